@@ -6,7 +6,7 @@ D=$(mktemp -d /tmp/xvmut.XXXXXX)
 git -C /repo worktree add -q --detach "$D/wt" HEAD || exit 2
 case "$M" in
   revert:*) git -C "$D/wt" revert -n "${M#revert:}" >/dev/null 2>&1 || { echo "revert failed"; git -C /repo worktree remove --force "$D/wt"; rm -rf "$D"; exit 2; } ;;
-  *) git -C "$D/wt" apply "$M" || { echo "patch failed"; git -C /repo worktree remove --force "$D/wt"; rm -rf "$D"; exit 2; } ;;
+  *) case "$M" in /*) ;; *) M="$PWD/$M";; esac; git -C "$D/wt" apply "$M" || { echo "patch failed"; git -C /repo worktree remove --force "$D/wt"; rm -rf "$D"; exit 2; } ;;
 esac
 XV_REPO="$D/wt" /verif/check "$@" --no-evidence
 rc=$?
